@@ -316,6 +316,8 @@ def main(modname, argv=None):
             bounds=getattr(mod, "BOUNDS", {}).get(tier, ""),
             stubs=list(getattr(mod, "STUBS", [])),
             known_findings_matched=n_known, new_violations=n_new,
+            slowest_configs=[dict(config=r["cfg"], secs=round(r.get("secs", 0.0), 1)) for r in sorted(results, key=lambda r: -r.get("secs", 0.0))[:5]],
+            cpu_s=round(sum(r.get("secs", 0.0) for r in results), 1), workers=nproc,
             solver="z3 %s (qfnra-nlsat for real obligations, default solver for integer path conditions)" % _z3v(),
             explanation=getattr(mod, "TITLE", ""),
         ),
